@@ -56,6 +56,18 @@ fn near_pairs(rng: &mut Rng, inner: Street, k: usize) -> Vec<Histogram> {
     }
     out
 }
+/// a metric whose distances are all tiny (0.0005 .. 0.005): the entropic cost of a spread histogram to ITSELF is then
+/// of the same order as its cost to a neighbouring concentrated one
+fn tight_metric(rng: &mut Rng, inner: Street) -> Metric {
+    let all = Abstraction::all(inner);
+    let mut m: Vec<(i64, f32)> = vec![];
+    for i in 0..all.len() {
+        for j in 0..i {
+            m.push((i64::from(Pair::from((&all[i], &all[j]))), 0.0005 + 0.0045 * rng.unit() as f32));
+        }
+    }
+    Metric::verif_from_entries(&m)
+}
 fn make_layer(rng: &mut Rng, street: Street, n: usize, k: usize, ties: bool, near: bool) -> (Layer, Vec<Histogram>, Vec<Histogram>) {
     let inner = street.next();
     let points: Vec<Histogram> = (0..n).map(|_| { let s = 1 + rng.below(6) as usize; let c = 5 + rng.below(40) as usize; random_hist(rng, inner, s, c) }).collect();
@@ -66,7 +78,18 @@ fn make_layer(rng: &mut Rng, street: Street, n: usize, k: usize, ties: bool, nea
     if ties && k >= 2 {
         kmeans[k - 1] = kmeans[0].clone(); // two identical centroids: the first must win
     }
-    let metric = if inner == Street::Rive { Metric::default() } else { random_metric(rng, inner) };
+    // flop layers with ties and few centroids: a tight metric, even centroids concentrated on one bucket taken from a
+    // point's support (the odd ones are copies of points)
+    let tight = ties && inner != Street::Rive && k <= 8;
+    if tight {
+        for i in (0..k.saturating_sub(1)).step_by(2) {
+            let (_, parts) = points[rng.below(n as u64) as usize].verif_parts();
+            if let Some((key, _)) = parts.get(parts.len() / 2) {
+                kmeans[i] = Histogram::from(vec![Abstraction::from(*key); 30]);
+            }
+        }
+    }
+    let metric = if inner == Street::Rive { Metric::default() } else if tight { tight_metric(rng, inner) } else { random_metric(rng, inner) };
     (Layer::verif_new(street, metric, points.clone(), kmeans.clone()), points, kmeans)
 }
 
